@@ -106,6 +106,16 @@ class Converter(abc.ABC, t.Generic[T_co]):
 @dataclasses.dataclass
 class AnyConverter(Converter[t.Any]):
     """Converter for ``t.Any``."""
+    def __init__(self, handlers: ConverterHandlers = ConverterHandlers()):
+        self.handlers = handlers
+
+    def into_data(self, val: t.Any) -> DataType:
+        """See [`Converter.into_data`][pane.converters.Converter.into_data]"""
+        # there is no type to go by: serialise by the value's own type, with our custom handlers still in force
+        if type(val) in (str, bytes, int, bool, float, complex, type(None)) and not any(True for _ in self.handlers):
+            return val
+        return make_converter(t.cast(t.Type[t.Any], type(val)), self.handlers).into_data(val)
+
     def try_convert(self, val: t.Any) -> t.Any:
         """See [`Converter.try_convert`][pane.converters.Converter.try_convert]"""
         return val
@@ -701,8 +711,8 @@ class SequenceConverter(t.Generic[FromDataT], Converter[t.Sequence[FromDataT]]):
         """See [`Converter.into_data`][pane.converters.Converter.into_data]"""
         # construct tuple from a tuple, or a list otherwise
         constructor = t.cast(t.Callable[[t.Iterable[t.Any]], t.Sequence[t.Any]], tuple if self.constructor is tuple else list)
-        if self.ty in (t.Any, type(t.Any)):
-            # also need to infer member types
+        if isinstance(self.v_conv, AnyConverter):
+            # also need to infer member types (keeping our custom handlers, as DictConverter does)
             return constructor(
                 make_converter(type(v), self.handlers).into_data(v)
                 for v in t.cast(t.Sequence[FromDataT], val)
